@@ -205,8 +205,10 @@ _veto_class = []
 
 def veto_check_class():
     """VetoCheck: rule '<field> <value>' rejects every row whose <field> equals <value> (a row check that can fail)."""
+    from cutplace import checks, errors
+    if _veto_class and checks.AbstractCheck not in _veto_class[0].__mro__:
+        del _veto_class[:]  # the modules were reloaded: define the class again on the current base class
     if not _veto_class:
-        from cutplace import checks, errors
 
         class VetoCheck(checks.AbstractCheck):
             def __init__(self, description, rule, available_field_names, location=None):
